@@ -131,12 +131,19 @@ Definition cx_tick (c : ctx) (d : Z) : ctx :=
 Definition cx_rand (c : ctx) (isn tsval : Z) : ctx :=
   mkCtx (cx_now c) (cx_ip_mtu c) (cx_addr c) (tsval mod 2 ^ 32) (isn mod 2 ^ 32).
 
+(* what `TcpRepr::parse` yields for an emitted segment: the identity (property C06), except that the
+   window-scale option is clamped to 14 (wire/tcp.rs; see [wire_clamp_wscale] in Model/Tcp.v) *)
+Definition wire_parse (r : tcp_repr) : tcp_repr :=
+  mkRepr (r_src_port r) (r_dst_port r) (r_control r) (r_seq_number r) (r_ack_number r)
+         (r_window_len r) (wire_clamp_wscale (r_window_scale r)) (r_max_seg_size r)
+         (r_sack_permitted r) (r_sack_ranges r) (r_timestamp r) (r_payload r).
+
 (* ---------- one step of the system ---------- *)
 Definition net_step (st : net) (ev : net_event) : outcome net :=
   match ev with
   | NDeliver to i =>
       match nth_error (ep_out (net_get st (side_other to))) i with
-      | Some p => do e <- ep_step (net_get st to) (EvSegment (fst p) (snd p)); Ok (net_set st to e)
+      | Some p => do e <- ep_step (net_get st to) (EvSegment (fst p) (wire_parse (snd p))); Ok (net_set st to e)
       | None => Ok st
       end
   | NDrop to i | NCorrupt to i =>
